@@ -171,4 +171,87 @@ PROPS = {
             "volumes are compared with the independent locator only at points farther than 8*delta from every surface",
         ],
     ),
+    "C02": dict(
+        flavour="asan",
+        level="exploration",
+        harnesses=["c02_population"],
+        quick=dict(shards=16, cases=220, min_nontrivial=500),
+        thorough=dict(shards=16, cases=12000, fuzz_s=600, fuzz_jobs=16, fuzz_max_len=704, min_nontrivial=500),
+        assumptions=COMMON_ASSUME + [
+            "physics data are synthetic ImportData pushed through the production construction path (see C01)",
+            "histories are physics-driven (real interactors); scripted per-step outcomes are not generated in this version",
+            "events whose Stepper-call budget (30000) is exhausted are judged non-terminating only if a single track took > 20000 steps",
+        ],
+    ),
+    "C06": dict(
+        flavour="asan",
+        level="exploration",
+        harnesses=["c06_repro"],
+        quick=dict(shards=16, cases=160, min_nontrivial=200),
+        thorough=dict(shards=16, cases=8000, fuzz_s=600, fuzz_jobs=16, fuzz_max_len=704, min_nontrivial=200),
+        assumptions=COMMON_ASSUME + [
+            "physics data are synthetic ImportData pushed through the production construction path (see C01)",
+            "both runs use the same binary and flavour; OpenMP is off (serial track-id assignment); TrackOrder::init_charge is a layout policy and excluded",
+            "action ids are compared by label (the status checker adds an action)",
+        ],
+    ),
+    "C16": dict(
+        flavour="asan",
+        level="fault_enumeration",
+        harnesses=["c16_starve"],
+        quick=dict(shards=16, cases=200, min_nontrivial=100),
+        thorough=dict(shards=16, cases=10000, fuzz_s=600, fuzz_jobs=16, fuzz_max_len=704, min_nontrivial=100),
+        assumptions=COMMON_ASSUME + [
+            "physics data are synthetic ImportData pushed through the production construction path (see C01)",
+            "faults = secondary stack capacities 1..8 and initializer capacities 1..16 on generated problems (one capacity per case)",
+            "a capacity below what a single interaction needs cannot succeed: that livelock is the listed finding F5",
+        ],
+    ),
+    "C17": dict(
+        flavour="asan",
+        level="exploration",
+        harnesses=["c17_scoring"],
+        quick=dict(shards=16, cases=160, min_nontrivial=200),
+        thorough=dict(shards=16, cases=8000, fuzz_s=600, fuzz_jobs=16, fuzz_max_len=704, min_nontrivial=200),
+        assumptions=COMMON_ASSUME + [
+            "physics data are synthetic ImportData pushed through the production construction path (see C01)",
+            "ground truth = unfiltered all-field stream of the same problem on a twin world (relies on the reproducibility checked by C06)",
+            "SimpleCalo is tested alone (it indexes tallies by the shared detector id); single stream",
+        ],
+    ),
+    "C08": dict(
+        flavour="asan",
+        level="exploration",
+        harnesses=["c08_field"],
+        quick=dict(shards=16, cases=2500, min_nontrivial=1000),
+        thorough=dict(shards=16, cases=150000, fuzz_s=900, fuzz_jobs=16, fuzz_max_len=704, min_nontrivial=1000),
+        assumptions=COMMON_ASSUME + [
+            "helix tolerance = 10*epsilon_rel_max per integration step + phase error of the un-renormalised ODE momentum + "
+            "delta_intersection/minimum_step terms (error model in harness/notes/C08.md); RZ-map fields get oracles 1-3 only",
+            "documented FieldPropagator caveats are respected: bump when stuck on a boundary is counted, not judged",
+        ],
+    ),
+    "C11": dict(
+        flavour="asan",
+        level="exploration",
+        harnesses=["c11_safety"],
+        quick=dict(shards=16, cases=2500, min_nontrivial=1000),
+        thorough=dict(shards=16, cases=150000, fuzz_s=900, fuzz_jobs=16, fuzz_max_len=512, min_nontrivial=1000),
+        assumptions=COMMON_ASSUME + [
+            "only the stated inequality is checked (safety 0 is always acceptable); points on surfaces are excluded",
+            "find_safety(max_step) is held to min(result, max_step), as its callers use it",
+        ],
+    ),
+    "C19": dict(
+        flavour="asan",
+        level="exploration",
+        harnesses=["c19_json"],
+        exhaustive=["c19_json"],
+        quick=dict(shards=16, cases=1500, min_nontrivial=1000),
+        thorough=dict(shards=16, cases=80000, fuzz_s=900, fuzz_jobs=16, fuzz_max_len=1024, min_nontrivial=1000),
+        assumptions=COMMON_ASSUME + [
+            "oriented bounding zones are not part of the JSON format (never read by tracking) and are not compared; a null unit bbox of a "
+            "non-global unit reads back as infinite; a zero Translation of an array cell reads back as NoTransformation (reader's documented normalisation)",
+        ],
+    ),
 }
